@@ -162,20 +162,33 @@ def reaching_value(path, upto, name):
     return val
 
 
+_BORROW_CACHE = {}
+
+
 def borrow(repo, res, tier, module, rules, prefix):
     """Run another property's rules and adopt the instances/findings of the given
     rule ids under `prefix` (e.g. C18.V3 -> C07.B7[C18.V3]).  Used where one
     mechanism carries two properties; the rule text stays with its owner."""
-    from ..report import Result, Finding
-    tmp = Result(res.prop)
-    module.check(repo, tmp, tier)
-    for i in tmp.instances:
-        if i.rule in rules:
-            i.rule = '%s[%s]' % (prefix, i.rule)
+    from ..report import Result, Finding, Instance
+    import copy as _copy
+    if getattr(res, '_no_borrow', False):
+        return          # only the lender's own rules are wanted (and borrowing chains may be cyclic)
+    key = (id(repo), module.__name__, tier)
+    tmp = _BORROW_CACHE.get(key)
+    if tmp is None:
+        tmp = Result(res.prop)
+        tmp._no_borrow = True
+        module.check(repo, tmp, tier)
+        _BORROW_CACHE[key] = tmp
+    for i0 in tmp.instances:
+        if i0.rule in rules:
+            i = _copy.copy(i0)
+            i.rule = '%s[%s]' % (prefix, i0.rule)
             res.instances.append(i)
-    for f in tmp.findings:
-        if f.rule in rules:
-            f.rule = '%s[%s]' % (prefix, f.rule)
+    for f0 in tmp.findings:
+        if f0.rule in rules:
+            f = _copy.copy(f0)
+            f.rule = '%s[%s]' % (prefix, f0.rule)
             f.prop = res.prop
             if f.key not in {x.key for x in res.findings}:
                 res.findings.append(f)
